@@ -30,7 +30,7 @@ ASSUMPTIONS = ['stdlib gzip/zlib are correct', 'the string-literal evaluator fol
                '(raw U+2028/2029 legal); cross-checked against nodejs when present (thorough tier)',
                'q=0 offers are an open cell']
 ALPHA = ['"', '\\', '/', '\n', '\r', ' ', ' ', '\x00', '\x1e', '\x7f', 'b', 'n', 'u', 'x',
-         '0', '\U0001f600', "'", ')', ';']
+         '0', '\U0001f600', "'", ')', ';', '%']
 
 
 def V(impl, clause, trigger, detail, case):
@@ -52,7 +52,11 @@ def check_direct(pkts, index, ctx=None):
     objs = [packet.Packet(t, data=d) for t, d in pkts]
     plain = payload.Payload(packets=objs).encode()
     objs = [packet.Packet(t, data=d) for t, d in pkts]
-    body = payload.Payload(packets=objs).encode(jsonp_index=index)
+    try:
+        body = payload.Payload(packets=objs).encode(jsonp_index=index)
+    except Exception as e:      # noqa  (every packet list has a JSONP form)
+        raise V('codec', 'jsonp-encoding-raised', char_class(plain) + '|' + type(e).__name__,
+                'payload %r: the JSONP wrapper raised %r' % (plain[:60], e), rep)
     try:
         idx, value = rm.parse_jsonp(body)
     except rm.JsSyntaxError as e:
@@ -241,7 +245,8 @@ adv_text = st.text(alphabet=st.one_of(st.sampled_from(ALPHA), st.characters(code
                    max_size=12)
 payload_st = st.one_of(
     adv_text, adv_text, st.sampled_from(['</script>', '");', '\\");alert(1);("', '\\u2028', '\\',
-                                         'a\\b\nc"d', '\\"', '\\\\"']),
+                                         'a\\b\nc"d', '\\"', '\\\\"', 'cpu at 100%', '%s', '%%',
+                                         '20%% off', '%d items', '%(x)s', '{0}', '{}']),
     st.binary(max_size=10),
     st.dictionaries(st.text(alphabet=st.sampled_from(ALPHA), max_size=3), adv_text, max_size=3),
     st.text(alphabet='ab', min_size=1000, max_size=1100))
